@@ -351,8 +351,10 @@ class uint16(int, FieldType):
     def __init__(self, value):
         if value < 0 or value > 0xFFFF:
             raise ValueError("Value not within (0x0, 0xffff), got: {}".format(value))
+        if value != int(self):
+            raise ValueError("Value is not an integer, got: {}".format(value))
 
-        self.value = value
+        self.value = int(self)
 
     def _pack(self):
         return self.value
@@ -367,8 +369,10 @@ class uint32(int, FieldType):
     def __init__(self, value):
         if value < 0 or value > 0xFFFFFFFF:
             raise ValueError("Value not within (0x0, 0xffffffff), got {}".format(value))
+        if value != int(self):
+            raise ValueError("Value is not an integer, got: {}".format(value))
 
-        self.value = value
+        self.value = int(self)
 
     def _pack(self):
         return self.value
